@@ -13,6 +13,7 @@ import os
 import sys
 
 from common import Check, Driver, Infra, VERIF, sarpy_guard
+import c13x
 
 sys.path.insert(0, os.path.join(VERIF, 'translate'))
 
@@ -332,11 +333,13 @@ def run(tier):
     logging.disable(logging.CRITICAL)
     chk = Check('C13', tier)
     rng = chk.rng
+    xs = c13x.Session(chk, tier)          # C13x: regenerates Gen/NitfTables2*.lean (must exist before the driver is built)
     import tables_nitf
     gen = tables_nitf.generate(os.path.join(VERIF, 'lean', 'SarpyModel', 'Gen', 'NitfTables.lean'))
     gen_info = {'table_driven': sorted(gen['tables']), 'overrides': gen['overrides'], 'loops': gen['loops'], 'changed': gen['changed']}
     broken = chk.prove(['SarpyModel.Props.C13', 'SarpyModel.Gen.NitfTables', 'SarpyModel.Drivers'], 'SarpyModel.Props.C13',
                        'Sarpy.Props.C13', REQUIRED, gen_info)
+    broken += xs.prove()
 
     fails = []
     stats = {}
@@ -389,6 +392,7 @@ def run(tier):
         py = ImageComments(values=[ImageComment(COMMENT=s) for s in items]).to_bytes().hex() or '-'
         body = ';'.join(s.encode().hex() or '-' for s in items) or '-'
         jobs.append(('loop', py, None, drv.ask(f'nitf loop 1 s80 {body}'), None))
+    xs.enqueue(drv)
     try:
         ans = drv.run()
     except Infra as e:
@@ -414,8 +418,14 @@ def run(tier):
             if not ans[i_dec].startswith('ok ') or not ans[i_dec].endswith(' ff'):
                 disagreements.append({'case': label, 'msg': 'model decode of to_bytes()+trailer failed: ' + ans[i_dec][:80]})
 
+    f2, d2, s2 = xs.collect(ans)
+    fails += f2
+    disagreements += d2
+    stats.update(s2)
+    classes_seen |= set(s2.get('x_classes', []))
     chk.coverage.update({
-        'evaluations': stats.get('instances', 0) + stats.get('rejections', 0) + stats.get('model_records', 0),
+        'evaluations': stats.get('instances', 0) + stats.get('rejections', 0) + stats.get('model_records', 0)
+                       + stats.get('x_instances', 0) + stats.get('x_model_records', 0) + stats.get('x_tre_lists', 0),
         'distinct_nontrivial': len(classes_seen),
         'rule': 'instances of every NITF 2.1/2.0 element class (defaults + random accepted values: edge-of-width integers incl. negatives, strings up to the width, '
                 'enumerations; file headers with 0-4 item arrays; image subheaders with 1-12 bands incl. the >9 extension, LUTs with 1-3 tables, 0-9 comments, '
@@ -423,7 +433,7 @@ def run(tier):
                 'distinct = element classes instantiated; non-trivial = the instance encodes to at least one byte',
         'samples': [f'{l}: {inst.to_bytes()[:48]!r}' for l, inst in insts[:3] if not isinstance(inst, Exception)],
         'stats': stats,
-        'traces_validated_against_impl': stats.get('model_records', 0),
+        'traces_validated_against_impl': stats.get('model_records', 0) + stats.get('x_model_records', 0) + stats.get('x_tre_lists', 0),
         'disagreements_checked': len(disagreements),
     })
     chk.assumptions += [
